@@ -10,21 +10,23 @@
 //
 // Oracles (written from the property statement, evaluated in every reached state / across every
 // transition, for every probe key):
-//   member-only          Get returns the node value currently registered under one of the member
-//                        representations, none (nil,false) iff no member owns a virtual node,
-//                        never a removed / replaced / foreign value, never panics;
-//   history independence probe results equal those of a FRESH ring built from the reference
-//                        membership in sorted order with the same effective replica counts
-//                        (differential, no expected values);
-//   minimal disruption   across a transition on node n every probe whose owner changed moved
-//                        *to* n (n was not a member), *from* n (Remove), to-or-from n (n re-added);
-//                        a Remove of a non-member changes nothing.
+//
+//	member-only          Get returns the node value currently registered under one of the member
+//	                     representations, none (nil,false) iff no member owns a virtual node,
+//	                     never a removed / replaced / foreign value, never panics;
+//	history independence probe results equal those of a FRESH ring built from the reference
+//	                     membership in sorted order with the same effective replica counts
+//	                     (differential, no expected values);
+//	minimal disruption   across a transition on node n every probe whose owner changed moved
+//	                     *to* n (n was not a member), *from* n (Remove), to-or-from n (n re-added);
+//	                     a Remove of a non-member changes nothing.
 //
 // The reference model is a map repr -> (node value, effective replicas); representations of the
 // node values are written by hand in the node tables (no call into lang.Repr).
 package main
 
 import (
+	"encoding/json"
 	"flag"
 	"fmt"
 	"os"
@@ -32,8 +34,32 @@ import (
 	"sort"
 	"strings"
 
+	"github.com/zeromicro/go-zero/core/logx"
+	"github.com/zeromicro/go-zero/core/stat"
 	"github.com/zeromicro/go-zero/verifshim/vlib"
+	"github.com/zeromicro/go-zero/verifshim/vx"
 )
+
+const concRule = " || CLUSTER PART (scenario cluster): every non-empty ordered selection of three redis servers with weights {100,30} (plus members of weight 0 / -5) " +
+	"as cache.ClusterConf / kv.KvConf; the real cache cluster and kv store are built per configuration and driven with 46 keys through every single-key entry point; " +
+	"placement read from the servers must be exactly one member of positive weight, equal for every order of the configuration, and between configurations differing in one member keys move only to/from that member; writes are found / deleted through the cluster; non-trivial = configuration whose keys spread over several servers" +
+	" || SCHEDULE PART (scenarios conc/...): closed systems on one real ring under the controlled scheduler — " +
+	"2-3 mutator threads with 1-2 operations each (Add / Remove / AddWithReplicas / AddWithWeight on different nodes, the same node, " +
+	"nodes of one representation, nodes with coinciding virtual-node labels) plus a reader thread doing Get, from three initial rings; " +
+	"one vx scenario per (initial ring, first mutator programme), the other programmes are an explorer-owned data choice; every interleaving " +
+	"up to the preemption bound (quick P=2, thorough P=3); oracles: quiescent probe vector == fresh ring of a membership that a sequential " +
+	"order of the calls consistent with real time produces, then sequential removal of every member (probe vector == fresh ring of the rest, " +
+	"finally nothing), every concurrent Get == what a fresh ring of some membership possible during the call returns; " +
+	"distinct_nontrivial counts (scenario, outcome signature = Get results + final membership) there"
+
+// runSchedules explores the concurrent scenarios (conc.go); vx finishes the report and exits.
+func runSchedules(cfg *vlib.Config, r *vlib.Report, rule string) {
+	scs, filtered := concScenarios(cfg)
+	if filtered && cfg.Shard == "" && cfg.Replay == "" {
+		r.NotExhaustive("schedule part restricted by VERIF_C15_CONC")
+	}
+	vx.Main(cfg, r, scs, vx.Bounds{P: 2, T: 0}, vx.Bounds{P: 3, T: 0}, rule)
+}
 
 type replayT struct {
 	Scenario string   `json:"scenario"`
@@ -48,6 +74,11 @@ func main() {
 	only := flag.String("only", "", "developer aid: comma-separated scenario names to run (run is then marked not exhaustive)")
 	cfg := vlib.ParseFlags("C15", "model_checking")
 	r := vlib.NewReport(cfg)
+	logx.Disable() // the cluster part links go-zero's redis / cache packages: no usage statistics on stdout
+	stat.DisableLog()
+	if cfg.RacePass {
+		runSchedules(cfg, r, "") // ./check C15 --race: free-running race-detector pass over the scenario bodies only
+	}
 	scs := scenarios()
 	if pf := os.Getenv("VERIF_C15_CPUPROF"); pf != "" { // developer aid only
 		if f, err := os.Create(pf); err == nil {
@@ -56,7 +87,35 @@ func main() {
 		}
 	}
 
+	if cfg.Shard != "" {
+		runSchedules(cfg, r, "") // vx worker process: runs one scenario, never returns
+	}
 	if cfg.Replay != "" {
+		if b, err := os.ReadFile(cfg.Replay); err == nil {
+			var probe struct {
+				Replay struct {
+					Choices  []int      `json:"choices"`
+					Scenario string     `json:"scenario"`
+					Engine   string     `json:"engine"`
+					Conf     []clMember `json:"conf"`
+					What     string     `json:"what"`
+					Addrs    []string   `json:"server_addresses"`
+				} `json:"replay"`
+			}
+			json.Unmarshal(b, &probe)
+			if strings.HasPrefix(probe.Replay.Scenario, "conc/") {
+				runSchedules(cfg, r, "") // vx replays the schedule and exits
+			}
+			if probe.Replay.Engine == "cluster" {
+				fmt.Printf("replay cluster configuration %s\nrecorded: %s\n", confString(probe.Replay.Conf), probe.Replay.What)
+				if runCluster(cfg, vlib.NewReport(cfg), probe.Replay.Conf, probe.Replay.Addrs) {
+					fmt.Printf("VIOLATION property=%s replay=%s\n", cfg.ID, cfg.Replay)
+					os.Exit(1)
+				}
+				fmt.Println("replay: no oracle failed")
+				os.Exit(0)
+			}
+		}
 		var rp replayT
 		class, err := vlib.LoadReplay(cfg.Replay, &rp)
 		if err != nil {
@@ -65,19 +124,21 @@ func main() {
 		os.Exit(replay(cfg, scs, class, &rp))
 	}
 
-	r.SetRule("per scenario (node table, ring constructor, hash): breadth-first over all operation lists " +
+	histRule := ("HISTORY PART: per scenario (node table, ring constructor, hash): breadth-first over all operation lists " +
 		"(Add / Remove / AddWithReplicas r / AddWithWeight w for every node of the table, simplest first) up to the depth bound; " +
 		"a state = shortest list reaching a distinct key (white-box dump of replicas+keys+ring buckets+nodes ⊕ reference membership); " +
 		"every transition replays the list on a fresh real ring, applies the op and evaluates all probe keys against " +
 		"member-only / fresh-ring differential / minimal-disruption oracles; violating states are reported once per class and not expanded. " +
 		"distinct_nontrivial = distinct state keys in which at least one member owns a virtual node (Get returns a node), prefixed by scenario")
+	r.SetRule(histRule)
+	onlySet := func(name string) bool { return *only == "" || strings.Contains(","+*only+",", ","+name+",") }
 
 	summary := map[string]any{}
 	for _, sc := range scs {
 		if sc.ThoroughOnly && !cfg.Thorough() {
 			continue
 		}
-		if *only != "" && !strings.Contains(","+*only+",", ","+sc.Name+",") {
+		if !onlySet(sc.Name) {
 			r.NotExhaustive("scenario " + sc.Name + " skipped by -only")
 			continue
 		}
@@ -122,7 +183,17 @@ func main() {
 	r.Assume("a member with 0 effective replicas (AddWithWeight 0) owns no virtual node: Get returns none iff no member owns a virtual node")
 	pprof.StopCPUProfile()
 	r.Assume("custom hash functions are outside the quantifier: in scenario 'custom' only member-only / never-removed / no-panic are violations; history dependence there is counted (counters outside_quantifier.*), not reported")
-	r.Finish()
+	r.Assume("schedule part: the statement is read for concurrent use as — at quiescence the ring is the ring of a membership some sequential order of the calls (consistent with real time) produces; a concurrent Get returns what the ring of some membership possible during the call returns; a re-add (documented as overwrite) may pass through 'node absent'")
+	if onlySet("cluster") {
+		runCluster(cfg, r, nil, nil)
+	} else {
+		r.NotExhaustive("cluster part skipped by -only")
+	}
+	if !onlySet("conc") {
+		r.NotExhaustive("schedule part skipped by -only")
+		r.Finish()
+	}
+	runSchedules(cfg, r, histRule+concRule)
 }
 
 func replay(cfg *vlib.Config, scs []*scenario, class string, rp *replayT) int {
